@@ -34,9 +34,12 @@ structure Basic (cfg : Cfg) (s : St) : Prop where
   noBadW : s.badWindow = false
   noBadO : s.badOverlap = false
   pw_iff : s.pwClosed ≠ none ↔ s.w = .done
-  prClosed_iff : s.prClosed = true ↔ (s.t = .cancelS ∨ s.t = .ret)
-  sCancel : s.sCancelled = true → s.t = .ret
-  ret_s : cfg.fix25 = true → s.t = .ret → s.sCancelled = true
+  prClosed_iff : s.prClosed = true ↔ (s.t = .cancelS ∨ s.t = .join ∨ s.t = .ret)
+  sCancel : s.sCancelled = true → (s.t = .join ∨ s.t = .ret)
+  ret_s : cfg.fix25 = true → (s.t = .join ∨ s.t = .ret) → s.sCancelled = true
+  join_fix : s.t = .join → cfg.fixJoin = true
+  /-- fix B3: the function returns only after the writer goroutine is gone -/
+  ret_done : cfg.fixJoin = true → s.t = .ret → s.w = .done
   dropped_pc : s.dropped = true → failPc s.w = true ∧ s.pwClosed ≠ some true
   ok_cursor : (okPc s.w = true ∨ s.pwClosed = some true) → s.cursor = cfg.n
 
@@ -46,7 +49,7 @@ theorem basic_init (cfg : Cfg) : Basic cfg (init cfg) := by
 set_option maxHeartbeats 4000000 in
 theorem basic_step {cfg : Cfg} {s s' : St} {l : Label} (h : Basic cfg s) (hs : step cfg s l = some s') :
     Basic cfg s' := by
-  obtain ⟨h1, h2, h3, h4, h5, h6, h7, h8, h9, h10, h11, h12⟩ := h
+  obtain ⟨h1, h2, h3, h4, h5, h6, h7, h8, h9, h10, h10a, h10b, h11, h12⟩ := h
   step_cases hs <;>
     (constructor <;> (try (simp_all [St.sctx, pOpenPc, okPc, livePc, failPc])) <;> (try grind))
 
@@ -94,7 +97,7 @@ def wW : WPc → Nat
   | .check => 7 | .w2 _ => 8 | .w1 _ => 9 | .opening => 10
 
 def tW : TPc → Nat
-  | .ret => 0 | .cancelS => 1 | .prClose => 2 | .inCons => 3
+  | .ret => 0 | .join => 1 | .cancelS => 2 | .prClose => 3 | .inCons => 4
 
 def mu (cfg : Cfg) (s : St) : Nat :=
   20 * (cfg.n - s.cursor) + 20 * s.errBudget + wW s.w + tW s.t + (if s.ctx0 then 0 else 1)
@@ -134,8 +137,27 @@ theorem progress {cfg : Cfg} {s : St} (hb : Basic cfg s) (hnf : final s = false)
   | .inCons => exact ⟨.rReturn, rfl, by simp [step, ht]⟩
   | .prClose => exact ⟨.tPrClose, rfl, by simp [step, ht]⟩
   | .cancelS => exact ⟨.tCancelS, rfl, by simp [step, ht]⟩
+  | .join =>
+    -- the function waits for the writer: the read end is closed and streamCtx cancelled, so the writer moves until done
+    have hpr : s.prClosed = true := hb.prClosed_iff.mpr (Or.inr (Or.inl ht))
+    match hw : s.w with
+    | .done => exact ⟨.tJoin, rfl, by simp [step, ht, hw]⟩
+    | .opening => exact ⟨.wOpenOk, rfl, by simp [step, hw]⟩
+    | .check => exact ⟨.wCheck, rfl, by by_cases h : s.sctx = true <;> simp [step, hw, h]⟩
+    | .inEmit =>
+      have := hb.cursor_le
+      by_cases h : s.cursor < cfg.n
+      · exact ⟨.wEmitVal, rfl, by simp [step, hw, h]⟩
+      · exact ⟨.wEmitEof, rfl, by simp [step, hw]; omega⟩
+    | .w1 i => exact ⟨.wWrFail, rfl, by simp [step, hw, hpr]⟩
+    | .w2 i => exact ⟨.wWrFail, rfl, by simp [step, hw, hpr]⟩
+    | .wEnd => exact ⟨.wWrFail, rfl, by simp [step, hw, hpr]⟩
+    | .closeP ok => exact ⟨.wCloseP, rfl, by simp [step, hw]⟩
+    | .closed ok => exact ⟨.wClosed, rfl, by cases ok <;> simp [step, hw]⟩
+    | .cancelC => exact ⟨.wCancelC, rfl, by simp [step, hw]⟩
+    | .pwClose b => exact ⟨.wPwClose, rfl, by simp [step, hw]⟩
   | .ret =>
-    have hpr : s.prClosed = true := hb.prClosed_iff.mpr (Or.inr ht)
+    have hpr : s.prClosed = true := hb.prClosed_iff.mpr (Or.inr (Or.inr ht))
     match hw : s.w with
     | .done => simp [final, ht, hw] at hnf
     | .opening => exact ⟨.wOpenOk, rfl, by simp [step, hw]⟩
